@@ -6,9 +6,11 @@ pub mod c05;
 pub mod c06;
 pub mod c07;
 pub mod c08;
+pub mod c09;
 pub mod c10;
 pub mod c12;
 pub mod c16;
+pub mod c18;
 pub mod tools;
 
 pub fn lookup(id: &str) -> Option<&'static dyn Prop> {
@@ -20,9 +22,11 @@ pub fn lookup(id: &str) -> Option<&'static dyn Prop> {
         "C06" => &c06::C06,
         "C07" => &c07::C07,
         "C08" => &c08::C08,
+        "C09" => &c09::C09,
         "C10" => &c10::C10,
         "C12" => &c12::C12,
         "C16" => &c16::C16,
+        "C18" => &c18::C18,
         _ => return None,
     })
 }
